@@ -675,6 +675,8 @@ def exec_history(hist):
                     res["out_text"] = None
             else:
                 res["out_text"] = None
+            if op.get("rm_outdir_after") and os.path.dirname(op["out"]):
+                res["_rm_outdir"] = os.path.join(root, os.path.dirname(op["out"]))
             res["backups"] = {}
             d = os.path.dirname(out) or root
             base = os.path.basename(out)
@@ -695,6 +697,10 @@ def exec_history(hist):
                     rt = [("harness", f"roundtrip oracle failed: {type(err).__name__}: {err} "
                                       f"{traceback.format_exc()[-600:]}")]
                 res["roundtrip"] = rt
+            rmdir = res.pop("_rm_outdir", None)
+            if rmdir and os.path.isdir(rmdir):
+                # the directory this call wrote into is removed before the next call (a temporary working directory)
+                shutil.rmtree(rmdir, ignore_errors=True)
             results.append(res)
         # state of the deferred writer queue after the history
         try:
